@@ -1468,10 +1468,11 @@ def run(chk, replay=None):
                                                      detail=detail, inputs=inputs_of[pid]), tags))
 
     ndis_model = 0
+    canon_genome = {pid: json.dumps(genomes[pid][0].to_json()) for pid in texts}
     for pid in texts:
         t = programs[pid][0]
         for f in range(4):
-            chk.seen((list_tree(t), f), nontrivial=t[0] == "F")
+            chk.seen((canon_genome[pid], f), nontrivial=t[0] == "F")
             want = oracle_text(syms, t, f, False)
             if texts[pid][f] != want:
                 fail(pid, f, "text-vs-substitution",
